@@ -165,6 +165,9 @@ class Unpacker(object):
         if ml > max_ml:
             raise MessageTooBig(opcode, ml, max_ml)
 
+        if ml < 5:
+            raise ProtocolException('Message too small: {}'.format(ml))
+
         if len(self.buf) < ml:
             return False
 
